@@ -97,6 +97,9 @@ pub const KF_DEFAULT_ARGS: &str = "C18-default-arg-expansion-borrow";
 /// a NaN used as an `if` condition selects the then-arm on the VM and the else-arm in the emitted
 /// Rust (`truthy` is `> 0.0`); same shape as C01-nan-condition (VM vs WASM)
 pub const KF_NAN_COND: &str = "C18-nan-condition";
+/// a local recursive closure (`letrec` inside a function body): the generated program fails its first
+/// call with "expected 1 words, got 0" (the VM runs it)
+pub const KF_LOCAL_LETREC: &str = "C18-local-letrec-crashes";
 
 const SIG_DIFF: &str = "c18:output-differs-from-vm";
 
@@ -106,7 +109,8 @@ fn tolerated(sig: &str, msg: &str, src: &str, pat: &Patterns, cx: &Cx) -> Option
     if cx.strict {
         return None;
     }
-    let table: [(&'static str, bool); 7] = [
+    let table: [(&'static str, bool); 8] = [
+        (KF_LOCAL_LETREC, sig.starts_with("c18:generated-program-crashed:unwrap-err:expected-#-words-got-#") && src.contains("letrec ")),
         (KF_DEFAULT_ARGS, sig.starts_with("c18:emitted-rust-does-not-compile:E0499:") && pat.nested_default_call && src.contains("..")),
         (KF_STATE_OPERAND_PROJ, sig.starts_with("c18:emitted-rust-does-not-compile:E0502:") && pat.state_operand_load),
         (KF_MATH_EXT, sig.starts_with("c18:generated-program-crashed:unwrap-err:unexpected-external-call") && EXT_MATH_1.iter().chain(EXT_MATH_2.iter()).any(|f| src.contains(&format!("{f}(")))),
@@ -627,11 +631,12 @@ fn pcfg(cx: &Cx) -> (prog::PCfg, Vec<&'static str>) {
     c.block_operands = true;
     c.proj_in_cond = true;
     c.capture_destructured = true;
-    c.raw_conditions = !cx.excluded(KF_NAN_COND);
-    let vm_side = [c01::KF_IF_STATE, c01::KF_MULTI_DELAY, c01::KF_NAN_COND, c01::KF_UNRESOLVED_SELF];
-    let mut off: Vec<&'static str> = off.into_iter().filter(|id| vm_side.contains(id) && *id != c01::KF_NAN_COND).collect();
-    if !c.raw_conditions {
-        off.push(KF_NAN_COND);
+    c.raw_conditions = true;
+    let vm_side = [c01::KF_IF_STATE, c01::KF_UNRESOLVED_SELF];
+    let mut off: Vec<&'static str> = off.into_iter().filter(|id| vm_side.contains(id)).collect();
+    if cx.excluded(KF_LOCAL_LETREC) {
+        c.local_letrec = false;
+        off.push(KF_LOCAL_LETREC);
     }
     (c, off)
 }
